@@ -12,6 +12,10 @@
 
       emitField t sn tag  =  the schema expression written for  `F <t> \`gozod:"<tag>"\``  in `type <sn> struct`
 
+  Round 4b: the transcription is parameterised by `WriterFacts` — structure facts read from writer.go with go/ast on
+  every run (`Gozod.Gen.writerFacts`, harness/cmd/c13/facts.go): which variant of each decision the writer contains
+  (the pinned one, or the one of a `pending/C13-*.diff`).  `WriterFacts.legacy` is the tree of round 4.
+
   Strings are lists of code points; `none` = outside the modelled fragment (gozodgen refuses the tag,
   `strconv.Quote` of a rune whose quoting is not modelled, a JSON `default=` on a slice / map field).
 -/
@@ -78,11 +82,33 @@ def Ty.isString : Ty → Bool
 def Ty.isPtr : Ty → Bool
   | .ptr _ => true | _ => false
 
+/-! ### which writer -/
+
+/-- structure facts of cmd/gozodgen/writer.go (one per decision that has more than one known variant) -/
+structure WriterFacts where
+  urlImport : Bool             -- generateImports writes "net/url" for a `url` rule
+  specialOptNonPtrOnly : Bool  -- UUID / Enum paths: `.Optional()` only when `!isPointerType(field.Type)`
+  optionalOnEveryPtr : Bool    -- general path: `isPointerType(field.Type) || !field.Required`
+  timePtr : Bool               -- baseConstructor, pointer branch: `base == "time.Time"` → gozod.Time()
+  sliceTyped : Bool            -- gozod.Slice[T](e); `*[]T` → the slice constructor; no .Optional() on slice fields; `time` import read off the emitted code
+  mapKeyMatch : Bool           -- mapKeyEnd (bracket matching) instead of strings.LastIndex(typeName, "]")
+  recordTyped : Bool           -- gozod.Record[string, V](gozod.String(), typedConstructor(V)); RecordPtr; `any` → gozod.Any(); no .Optional() on map fields
+  urlCtor : Bool               -- URL special case: gozod.URL()
+  ruleApplies : Bool           -- generateValidatorChain asks ruleApplies; the Enum path asks enumRuleApplies
+  boundArg : Bool              -- min/max/gt/gte/lt/lte arguments through boundArgument
+  extraRules : Bool            -- cases length, nonempty, positive, negative, nonnegative, nonpositive
+  deriving DecidableEq, Repr
+
+/-- the writer of round 4 (/repo 65a0069 … cef00ff) -/
+def WriterFacts.legacy : WriterFacts := ⟨true, true, true, false, false, false, false, false, false, false, false⟩
+/-- the writer with every pending C13 patch applied -/
+def WriterFacts.repaired : WriterFacts := ⟨false, false, false, true, true, true, true, true, true, true, true⟩
+
 /-! ### the structure of an emitted expression -/
 
 /-- an argument as gozodgen writes it -/
 inductive Arg
-  | raw (text : Str)          -- the parameter of the tag, verbatim (`fmt.Sprintf(".Min(%s)", p)`)
+  | raw (text : Str)          -- the parameter of the tag, verbatim (`fmt.Sprintf(".Min(%s)", p)`), or a normalised number
   | quoted (lit : Str)        -- `strconv.Quote(p)`: the text of a Go string literal
   | regexp (lit : Str)        -- `regexp.MustCompile("<escaped>")`
   deriving DecidableEq, Repr
@@ -92,14 +118,17 @@ structure Call where
   args : List Arg
   deriving DecidableEq, Repr
 
-/-- constructor expressions of `baseConstructor` and of the UUID / Enum special cases -/
+/-- constructor expressions of `baseConstructor` / `typedConstructor` and of the UUID / URL / Enum special cases -/
 inductive CExpr
   | prim (b : Basic)                 -- gozod.String() …
-  | any | time                       -- gozod.Any(), gozod.Time()
+  | primPtr (b : Basic)              -- gozod.StringPtr() …  (typedConstructor)
+  | any | time | timePtr             -- gozod.Any(), gozod.Time(), gozod.TimePtr()
   | fromStruct (tyText : Str)        -- gozod.FromStruct[<text>]()
+  | fromStructPtr (tyText : Str)     -- gozod.FromStructPtr[<text>]()
   | lazyStruct (n : Str)             -- gozod.Lazy(func() gozod.ZodType[any] { return gozod.FromStruct[<n>]() })
-  | slice (e : CExpr) | record (e : CExpr)
-  | uuid | enum (vals : List Str)    -- vals: the quoted literals
+  | slice (ptr : Bool) (targ : Option Str) (e : CExpr)    -- gozod.Slice(e) | gozod.Slice[T](e) | gozod.SlicePtr[T](e)
+  | record (ptr : Bool) (targ : Option Str) (e : CExpr)   -- gozod.Record(e) | gozod.Record[string, V](gozod.String(), e) | gozod.RecordPtr[…](…)
+  | uuid | url | enum (vals : List Str)    -- vals: the quoted literals
   deriving Repr
 
 structure Chain where
@@ -119,19 +148,26 @@ def Arg.render : Arg → Str
 
 def Call.render (c : Call) : Str := [0x2E] ++ asc c.name ++ [0x28] ++ joinSep (asc ", ") (c.args.map Arg.render) ++ [0x29]
 
+def ptrSuffix (ptr : Bool) : Str := if ptr then asc "Ptr" else []
+
 def CExpr.render : CExpr → Str
   | .prim b => asc ("gozod." ++ b.ctorName ++ "()")
-  | .any => asc "gozod.Any()" | .time => asc "gozod.Time()"
+  | .primPtr b => asc ("gozod." ++ b.ctorName ++ "Ptr()")
+  | .any => asc "gozod.Any()" | .time => asc "gozod.Time()" | .timePtr => asc "gozod.TimePtr()"
   | .fromStruct t => asc "gozod.FromStruct[" ++ t ++ asc "]()"
+  | .fromStructPtr t => asc "gozod.FromStructPtr[" ++ t ++ asc "]()"
   | .lazyStruct n => asc "gozod.Lazy(func() gozod.ZodType[any] { return gozod.FromStruct[" ++ n ++ asc "]() })"
-  | .slice e => asc "gozod.Slice(" ++ e.render ++ [0x29]
-  | .record e => asc "gozod.Record(" ++ e.render ++ [0x29]
+  | .slice ptr none e => asc "gozod.Slice" ++ ptrSuffix ptr ++ [0x28] ++ e.render ++ [0x29]
+  | .slice ptr (some t) e => asc "gozod.Slice" ++ ptrSuffix ptr ++ [0x5B] ++ t ++ asc "](" ++ e.render ++ [0x29]
+  | .record ptr none e => asc "gozod.Record" ++ ptrSuffix ptr ++ [0x28] ++ e.render ++ [0x29]
+  | .record ptr (some v) e => asc "gozod.Record" ++ ptrSuffix ptr ++ asc "[string, " ++ v ++ asc "](gozod.String(), " ++ e.render ++ [0x29]
   | .uuid => asc "gozod.UUID()"
+  | .url => asc "gozod.URL()"
   | .enum vals => asc "gozod.Enum(" ++ joinSep (asc ", ") vals ++ [0x29]
 
 def Chain.render (c : Chain) : Str := c.ctor.render ++ (c.calls.map Call.render).flatten
 
-/-! ### `baseConstructor(typeName, structName)` — over the text of the type name -/
+/-! ### `baseConstructor(typeName, structName)` / `typedConstructor` — over the text of the type name -/
 
 def cutPrefix (p s : Str) : Option Str := if p.isPrefixOf s then some (s.drop p.length) else none
 
@@ -143,76 +179,290 @@ def lastIndexRB : Str → Option Nat
     | some i => some (i + 1)
     | none => if c = 0x5D then some 0 else none
 
+/-- the loop of `mapKeyEnd` from index `i` on with bracket depth `d` -/
+def mapKeyEndF : Int → Nat → Str → Option Nat
+  | _, _, [] => none
+  | d, i, c :: rest =>
+    if c = 0x5B then mapKeyEndF (d + 1) (i + 1) rest
+    else if c = 0x5D then (if d - 1 = 0 then some i else mapKeyEndF (d - 1) (i + 1) rest)
+    else mapKeyEndF d (i + 1) rest
+
+/-- `mapKeyEnd(typeName)`: the bracket that closes the key type of `map[K]V` -/
+def mapKeyEnd (tn : Str) : Option Nat := mapKeyEndF 0 3 (tn.drop 3)
+
 /-- `basicTypeConstructor` -/
 def basicCtor (name : Str) : CExpr :=
   match Basic.ofName? name with | some b => .prim b | none => .any
 
 def trimStar (s : Str) : Str := (cutPrefix [0x2A] s).getD s
 
-/-- `baseConstructor`; the fuel is the length of the type name (every recursive call is on a proper suffix) -/
-def baseCtorF (sn : Str) : Nat → Str → CExpr
-  | 0, _ => .any
-  | f + 1, tn =>
+/-- `"gozod.SlicePtr" + strings.TrimPrefix(text, "gozod.Slice")` / the same for Record, on the structure
+    (the text always starts with that prefix: the type name starts with `[]` / `map[`) -/
+def setPtr : CExpr → CExpr
+  | .slice _ t e => .slice true t e
+  | .record _ t e => .record true t e
+  | e => e
+
+/-- `baseConstructor` (typed = false) and `typedConstructor` (typed = true; exists only in a writer with `recordTyped`);
+    the fuel is the length of the type name (every recursive call is on a proper suffix) -/
+def ctorF (W : WriterFacts) (sn : Str) : Nat → Bool → Str → CExpr
+  | 0, _, _ => .any
+  | f + 1, typed, tn =>
     match cutPrefix [0x2A] tn with
     | some base =>
-      if (Basic.ofName? base).isSome then basicCtor base
-      else if sn ≠ [] ∧ base = sn then .lazyStruct base
-      else .fromStruct base
+      if typed then
+        match Basic.ofName? base with
+        | some b => .primPtr b
+        | none =>
+          if base = asc "time.Time" then .timePtr
+          else if (asc "[]").isPrefixOf base ∨ (asc "map[").isPrefixOf base then setPtr (ctorF W sn f false base)
+          else .fromStructPtr base
+      else
+        if (Basic.ofName? base).isSome then basicCtor base
+        else if sn ≠ [] ∧ base = sn then .lazyStruct base
+        else if W.timePtr ∧ base = asc "time.Time" then .time
+        else if W.sliceTyped ∧ (asc "[]").isPrefixOf base then ctorF W sn f false base
+        else if W.recordTyped ∧ (asc "map[").isPrefixOf base then setPtr (ctorF W sn f false base)
+        else .fromStruct base
     | none =>
+    if typed ∧ sn ≠ [] ∧ tn = sn then .fromStruct tn else
     match cutPrefix (asc "[]") tn with
     | some elem =>
       let clean := trimStar elem
-      if sn ≠ [] ∧ clean = sn then .slice (.lazyStruct clean) else .slice (baseCtorF sn f elem)
+      if sn ≠ [] ∧ clean = sn then .slice false none (.lazyStruct clean)
+      else .slice false (if W.sliceTyped then some elem else none) (ctorF W sn f false elem)
     | none =>
     if (asc "map[").isPrefixOf tn then
-      match lastIndexRB tn with
+      let malformed : CExpr := if W.recordTyped then .record false (some (asc "any")) .any else .record false none .any
+      match (if W.mapKeyMatch then mapKeyEnd tn else lastIndexRB tn) with
       | some idx =>
         if idx < tn.length - 1 then
           let val := tn.drop (idx + 1)
-          let clean := trimStar val
-          if sn ≠ [] ∧ clean = sn then .record (.lazyStruct clean) else .record (baseCtorF sn f val)
-        else .record .any
-      | none => .record .any
+          if W.recordTyped then .record false (some val) (ctorF W sn f true val)
+          else
+            let clean := trimStar val
+            if sn ≠ [] ∧ clean = sn then .record false none (.lazyStruct clean) else .record false none (ctorF W sn f false val)
+        else malformed
+      | none => malformed
+    else if W.recordTyped ∧ tn = asc "any" then .any
     else if (Basic.ofName? tn).isSome then basicCtor tn
     else if tn = asc "time.Time" then .time
     else if sn ≠ [] ∧ tn = sn then .lazyStruct tn
     else if tn ≠ asc "unknown" then .fromStruct tn
     else .any
 
-def baseCtor (t : Ty) (sn : Str) : CExpr := baseCtorF sn (t.typeName.length + 1) t.typeName
+def baseCtor (W : WriterFacts) (t : Ty) (sn : Str) : CExpr := ctorF W sn (t.typeName.length + 1) false t.typeName
 
 /-! ### `generateValidatorChain(rule, fieldType)` -/
 
 def startsWithBr (s : Str) : Bool := s.head? = some cLBracket || s.head? = some cLBrace
 def endsWith (c : Nat) (s : Str) : Bool := s.getLast? = some c
 
+/-! #### JSON `default=` / `prefault=` parameters of slice and map fields (`generateSliceValue`, `generateMapValue`) -/
+
+/-- an item of a JSON array / a value of a JSON object, in the fragment modelled: a string without `"` and `\`,
+    an integer of at most 15 digits, `true`, `false` -/
+inductive JItem | str (s : Str) | int (v : Int) | bool (b : Bool)
+  deriving DecidableEq, Repr
+
+/-- split at the commas outside double quotes -/
+def splitItems : Bool → Str → Str → List Str
+  | _, cur, [] => [cur.reverse]
+  | inQ, cur, c :: rest =>
+    if c = 0x22 then splitItems (!inQ) (c :: cur) rest
+    else if c = 0x2C ∧ !inQ then cur.reverse :: splitItems inQ [] rest
+    else splitItems inQ (c :: cur) rest
+
+def parseItem (s : Str) : Option JItem :=
+  if s = asc "true" then some (.bool true) else if s = asc "false" then some (.bool false)
+  else match s with
+    | 0x22 :: rest =>
+      match rest.reverse with
+      | 0x22 :: body => if body.all (fun c => c ≠ 0x22 ∧ c ≠ 0x5C ∧ 0x20 ≤ c ∧ c < 0x7F) then some (.str body.reverse) else none
+      | _ => none
+    | _ =>
+      let (neg, r) := (match s with | 0x2D :: r => (true, r) | _ => (false, s))
+      if !r.isEmpty ∧ r.all (fun c => 0x30 ≤ c && c ≤ 0x39) ∧ r.length ≤ 15 ∧ (r.length = 1 ∨ r.head? ≠ some 0x30) then
+        let v : Nat := r.foldl (fun acc d => acc * 10 + (d - 0x30)) 0
+        some (.int (if neg then -(v : Int) else v))
+      else none
+
+def allItems : List (Option JItem) → Option (List JItem)
+  | [] => some []
+  | none :: _ => none
+  | some x :: xs => (allItems xs).map (x :: ·)
+
+/-- `[item,item,…]` without white space; `none`: outside the fragment -/
+def parseJArray (v : Str) : Option (List JItem) :=
+  match v with
+  | 0x5B :: rest =>
+    match rest.reverse with
+    | 0x5D :: body => if body.isEmpty then some [] else allItems ((splitItems false [] body.reverse).map parseItem)
+    | _ => none
+  | _ => none
+
+/-- `generateSliceValue` for a bracketed value: the Go slice literal for element kinds string / int / bool (items of another
+    JSON type are skipped), the value verbatim for the other element kinds; `none`: JSON outside the fragment, or `%g` of float64 -/
+def sliceLiteral (v : Str) (elem : Ty) : Option Str :=
+  match parseJArray v with
+  | none => none
+  | some items =>
+    match elem with
+    | .basic .string =>
+      some (asc "[]string{" ++ joinSep (asc ", ") (items.filterMap fun i => match i with | .str s => some ([0x22] ++ s ++ [0x22]) | _ => none) ++ [0x7D])
+    | .basic .int =>
+      some (asc "[]int{" ++ joinSep (asc ", ") (items.filterMap fun i => match i with | .int n => some (asc (toString n)) | _ => none) ++ [0x7D])
+    | .basic .bool =>
+      some (asc "[]bool{" ++ joinSep (asc ", ") (items.filterMap fun i => match i with | .bool b => some (asc (if b then "true" else "false")) | _ => none) ++ [0x7D])
+    | .basic .float64 => none
+    | _ => some v
+
 /-- `generateTypedValue(method, value, fieldType)`: `strconv.Quote` for kind String, the value verbatim for the
-    other basic kinds and for `any`/struct kinds; slices and maps: verbatim unless the (trimmed) value is bracketed —
-    then the JSON path of `generateSliceValue` / `generateMapValue`, which is not modelled (`none`);
+    other basic kinds and for `any`/struct kinds; slices: verbatim unless the (trimmed) value is bracketed —
+    then `generateSliceValue` (`sliceLiteral`); maps: verbatim unless braced — then the JSON path of `generateMapValue`,
+    which is not modelled (`none`: it ranges over a Go map, the order of the entries is not determined);
     pointers: the element type -/
 def typedArg (value : Str) : Ty → Option Arg
   | .basic .string => (GenChain.emitDefaultFixed value).map Arg.quoted
   | .ptr t => typedArg value t
-  | .slice _ =>
+  | .slice e =>
     let v := trimSpace value
-    if v.head? = some cLBracket ∧ endsWith 0x5D v then none else some (.raw v)
+    if v.head? = some cLBracket ∧ endsWith 0x5D v then (sliceLiteral v e).map Arg.raw else some (.raw v)
   | .map _ _ =>
     let v := trimSpace value
     if v.head? = some cLBrace ∧ endsWith 0x7D v then none else some (.raw v)
   | _ => some (.raw value)
+
+/-- the field type `ruleApplies` / `boundArgument` look at: one pointer level removed -/
+def Ty.deref : Ty → Ty
+  | .ptr t => t
+  | t => t
+
+/-- reflect kinds Int … Uint64, Float32, Float64, Complex64, Complex128 -/
+def Ty.numeric : Ty → Bool
+  | .basic b => b != .string && b != .bool
+  | _ => false
+
+def Ty.floaty : Ty → Bool
+  | .basic .float32 | .basic .float64 | .basic .complex64 | .basic .complex128 => true
+  | _ => false
+
+def Ty.sized : Ty → Bool
+  | .basic .string | .slice _ | .map _ _ => true
+  | _ => false
+
+/-- `ruleApplies(name, fieldType)` -/
+def ruleAppliesTo (n : Str) (t : Ty) : Bool :=
+  let t := t.deref
+  if n = asc "min" ∨ n = asc "max" then t.numeric || t.sized
+  else if n = asc "length" ∨ n = asc "nonempty" then t.sized
+  else if n = asc "gt" ∨ n = asc "gte" ∨ n = asc "lt" ∨ n = asc "lte" ∨ n = asc "positive" ∨ n = asc "negative" ∨
+          n = asc "nonnegative" ∨ n = asc "nonpositive" then t.numeric
+  else if n = asc "email" ∨ n = asc "url" ∨ n = asc "ipv4" ∨ n = asc "ipv6" ∨ n = asc "regex" ∨ n = asc "trim" ∨
+          n = asc "lowercase" ∨ n = asc "uppercase" then t == .basic .string
+  else true
+
+/-- `enumRuleApplies(name)` -/
+def enumRuleAppliesTo (n : Str) : Bool :=
+  n = asc "default" ∨ n = asc "prefault" ∨ n = asc "nilable" ∨ n = asc "refine" ∨ n = asc "check"
+
+/-! #### numbers in rule parameters (`strconv.ParseInt(p, 10, 64)`, the decimal fragment of `strconv.ParseFloat`) -/
+
+def isDig (c : Nat) : Bool := 0x30 ≤ c && c ≤ 0x39
+def digitsVal (ds : Str) : Nat := ds.foldl (fun acc d => acc * 10 + (d - 0x30)) 0
+
+/-- sign and rest: `strconv.ParseInt` / `ParseFloat` accept one leading `+` or `-` -/
+def splitSign : Str → Bool × Str
+  | 0x2D :: r => (true, r)
+  | 0x2B :: r => (false, r)
+  | s => (false, s)
+
+/-- shapes of a numeric parameter -/
+inductive NumShape
+  | int (v : Int)                               -- `[+-]?d+`
+  | dec (neg : Bool) (ip : Nat) (fracLen : Nat) -- `[+-]?d+.d+` (decimal, no exponent)
+  | floatChars                                  -- only characters of `0123456789+-.eE`, another shape (exponent, `1.`, `.5`, …)
+  | notNumber                                   -- some other character: ParseInt and the float test both fail
+  deriving DecidableEq, Repr
+
+def numShape (p : Str) : NumShape :=
+  let (neg, r) := splitSign p
+  if !r.isEmpty ∧ r.all isDig then .int (if neg then -(digitsVal r : Int) else digitsVal r)
+  else
+    let ip := r.takeWhile isDig
+    match r.drop ip.length with
+    | 0x2E :: fr =>
+      if !ip.isEmpty ∧ !fr.isEmpty ∧ fr.all isDig then .dec neg (digitsVal ip) fr.length
+      else if p.all (fun c => isDig c || c = 0x2B || c = 0x2D || c = 0x2E || c = 0x65 || c = 0x45) then .floatChars else .notNumber
+    | _ => if p.all (fun c => isDig c || c = 0x2B || c = 0x2D || c = 0x2E || c = 0x65 || c = 0x45) then .floatChars else .notNumber
+
+/-- `strconv.FormatInt(n, 10)` -/
+def fmtInt (n : Int) : Str := asc (toString n)
+
+/-- `boundArgument(name, param, fieldType)`: `some (some a)` the argument, `some none` no call is written,
+    `none` outside the modelled fragment (exponents, a fraction that float64 rounding could carry over an integer,
+    integers below -2^63 on gt/gte/lt/lte) -/
+def boundArg (n : Str) (p : Str) (t : Ty) : Option (Option Arg) :=
+  let t := t.deref
+  if t.floaty then
+    match numShape p with
+    | .int _ | .dec _ _ _ => some (some (.raw p))
+    | .notNumber => some none
+    | .floatChars => if p.isEmpty then some none else none
+  else
+    match numShape p with
+    | .int v =>
+      if -(2 ^ 63) ≤ v ∧ v ≤ 2 ^ 63 - 1 then some (some (.raw (fmtInt v)))
+      else if n = asc "min" ∨ n = asc "max" then some none
+      else if v ≥ 2 ^ 63 then some none
+      else none
+    | .dec neg ip fl =>
+      if n = asc "min" ∨ n = asc "max" then some none
+      else if ip < 2 ^ 31 ∧ fl ≤ 6 then some (some (.raw (fmtInt (if neg then -(ip : Int) else ip))))
+      else none
+    | .notNumber => if n = asc "min" ∨ n = asc "max" then some none else (if p.isEmpty then some none else none)
+    | .floatChars => if n = asc "min" ∨ n = asc "max" then some none else none
 
 def call1 (m : String) (ps : List Str) : Option (List Call) :=
   match ps with
   | p :: _ => some [⟨m, [.raw p]⟩]
   | [] => some []
 
+/-- a bound rule: the parameter verbatim (legacy) or through `boundArgument` -/
+def callBound (W : WriterFacts) (m : String) (n : Str) (ps : List Str) (t : Ty) : Option (List Call) :=
+  match ps with
+  | p :: _ =>
+    if W.boundArg then
+      match boundArg n p t with
+      | some (some a) => some [⟨m, [a]⟩]
+      | some none => some []
+      | none => none
+    else some [⟨m, [.raw p]⟩]
+  | [] => some []
+
+/-- `strconv.Atoi(p)` succeeds with value `v` -/
+def atoi? (p : Str) : Option Int :=
+  match numShape p with
+  | .int v => if -(2 ^ 63) ≤ v ∧ v ≤ 2 ^ 63 - 1 then some v else none
+  | _ => none
+
 /-- `generateValidatorChain(rule, fieldType)`: zero or one call -/
-def chainOf (r : Rule) (t : Ty) : Option (List Call) :=
+def chainOf (W : WriterFacts) (r : Rule) (t : Ty) : Option (List Call) :=
   let ps := r.params.getD []
   let n := r.name
-  if n = asc "min" then call1 "Min" ps else if n = asc "max" then call1 "Max" ps
-  else if n = asc "gt" then call1 "Gt" ps else if n = asc "gte" then call1 "Gte" ps
-  else if n = asc "lt" then call1 "Lt" ps else if n = asc "lte" then call1 "Lte" ps
+  if W.ruleApplies ∧ !ruleAppliesTo n t then some []
+  else if n = asc "min" then callBound W "Min" n ps t else if n = asc "max" then callBound W "Max" n ps t
+  else if n = asc "gt" then callBound W "Gt" n ps t else if n = asc "gte" then callBound W "Gte" n ps t
+  else if n = asc "lt" then callBound W "Lt" n ps t else if n = asc "lte" then callBound W "Lte" n ps t
+  else if W.extraRules ∧ n = asc "length" then
+    match ps with
+    | p :: _ => (match atoi? p with | some v => some [⟨"Length", [.raw (fmtInt v)]⟩] | none => some [])
+    | [] => some []
+  else if W.extraRules ∧ n = asc "nonempty" then some [⟨"Min", [.raw (asc "1")]⟩]
+  else if W.extraRules ∧ n = asc "positive" then some [⟨"Positive", []⟩]
+  else if W.extraRules ∧ n = asc "negative" then some [⟨"Negative", []⟩]
+  else if W.extraRules ∧ n = asc "nonnegative" then some [⟨"NonNegative", []⟩]
+  else if W.extraRules ∧ n = asc "nonpositive" then some [⟨"NonPositive", []⟩]
   else if n = asc "refine" then call1 "Refine" ps else if n = asc "check" then call1 "Check" ps
   else if n = asc "email" then some [⟨"Email", []⟩] else if n = asc "url" then some [⟨"URL", []⟩]
   else if n = asc "ipv4" then some [⟨"IPv4", []⟩] else if n = asc "ipv6" then some [⟨"IPv6", []⟩]
@@ -235,18 +485,30 @@ def allSome : List (Option Str) → Option (List Str)
   | none :: _ => none
   | some x :: xs => (allSome xs).map (x :: ·)
 
-def chainAll (rs : List Rule) (t : Ty) : Option (List Call) :=
-  rs.foldl (fun acc r => match acc, chainOf r t with | some a, some c => some (a ++ c) | _, _ => none) (some [])
+def chainAll (W : WriterFacts) (rs : List Rule) (t : Ty) : Option (List Call) :=
+  rs.foldl (fun acc r => match acc, chainOf W r t with | some a, some c => some (a ++ c) | _, _ => none) (some [])
 
 def hasName (rs : List Rule) (n : Str) : Bool := rs.any (·.name = n)
 
 def optionalCall (b : Bool) : List Call := if b then [⟨"Optional", []⟩] else []
 
+/-- `.Optional()` of the UUID / URL / Enum paths -/
+def specialOptional (W : WriterFacts) (t : Ty) (required : Bool) : Bool :=
+  !required && (!W.specialOptNonPtrOnly || !t.isPtr)
+
+/-- `.Optional()` of the general path -/
+def generalOptional (W : WriterFacts) (t : Ty) (required : Bool) : Bool :=
+  (if W.optionalOnEveryPtr then t.isPtr || !required else !required) &&
+  !(W.sliceTyped && t.kind == .slice) && !(W.recordTyped && t.kind == .map)
+
 /-- `generateFieldSchemaCode`, as a structure -/
-def emitChain (t : Ty) (sn : Str) (rs : List Rule) : Option Chain :=
+def emitChain (W : WriterFacts) (t : Ty) (sn : Str) (rs : List Rule) : Option Chain :=
   let required := hasName rs (asc "required")
   if hasName rs (asc "uuid") ∧ t.isString then
-    (chainAll (rs.filter (·.name ≠ asc "uuid")) t).map fun c => ⟨.uuid, c ++ optionalCall (!required && !t.isPtr)⟩
+    (chainAll W (rs.filter fun r => r.name ≠ asc "uuid" ∧ !(W.urlCtor ∧ r.name = asc "url")) t).map fun c =>
+      ⟨.uuid, c ++ optionalCall (specialOptional W t required)⟩
+  else if W.urlCtor ∧ hasName rs (asc "url") ∧ t.isString ∧ !hasName rs (asc "enum") then
+    (chainAll W (rs.filter (·.name ≠ asc "url")) t).map fun c => ⟨.url, c ++ optionalCall (specialOptional W t required)⟩
   else
     match (if t.isString then rs.find? (·.name = asc "enum") else none) with
     | some e =>
@@ -254,29 +516,57 @@ def emitChain (t : Ty) (sn : Str) (rs : List Rule) : Option Chain :=
       match allSome ((e.params.getD []).map GenChain.emitDefaultFixed) with
       | none => none
       | some vals =>
-        (chainAll (rs.filter (·.name ≠ asc "enum")) t).map fun c => ⟨.enum vals, c ++ optionalCall (!required && !t.isPtr)⟩
+        (chainAll W (rs.filter fun r => r.name ≠ asc "enum" ∧ (!W.ruleApplies ∨ enumRuleAppliesTo r.name)) t).map fun c =>
+          ⟨.enum vals, c ++ optionalCall (specialOptional W t required)⟩
     | none =>
-      (chainAll rs t).map fun c => ⟨baseCtor t sn, c ++ optionalCall (t.isPtr || !required)⟩
+      (chainAll W rs t).map fun c => ⟨baseCtor W t sn, c ++ optionalCall (generalOptional W t required)⟩
 
 /-- the text of the emitted expression -/
-def emitRules (t : Ty) (sn : Str) (rs : List Rule) : Option Str := (emitChain t sn rs).map Chain.render
+def emitRules (W : WriterFacts) (t : Ty) (sn : Str) (rs : List Rule) : Option Str := (emitChain W t sn rs).map Chain.render
 
-def emitField (t : Ty) (sn : Str) (tag : Str) : Option Str :=
+def emitField (W : WriterFacts) (t : Ty) (sn : Str) (tag : Str) : Option Str :=
   match genParseTag tag with
-  | .ok rs => emitRules t sn rs
+  | .ok rs => emitRules W t sn rs
   | .error _ => none
 
 /-! ### `generateImports` -/
 
+def hasInfix (p : Str) : Str → Bool
+  | [] => p.isEmpty
+  | c :: rest => p.isPrefixOf (c :: rest) || hasInfix p rest
+
 /-- import paths gozodgen writes for a struct with these fields, beside `github.com/kaptinlin/gozod`
-    (the `time` import is keyed on `field.Type.String()` containing "time.Time", which the marker type
-    `main.timeType` never does: it is never written) -/
-def importsOf (fields : List (List Rule)) : List String :=
+    (legacy: the `time` import is keyed on `field.Type.String()` containing "time.Time", which the marker type
+    `main.timeType` never does: it is never written; with `sliceTyped`: keyed on the emitted code of the field) -/
+def importsOf (W : WriterFacts) (fields : List (List Rule)) (chains : List Chain) : List String :=
   let has (ns : List String) := fields.any fun rs => rs.any fun r => ns.any fun n => r.name = asc n
+  (if W.sliceTyped ∧ chains.any (fun c => hasInfix (asc "time.Time") c.render) then ["time"] else []) ++
   (if has ["trim", "lowercase", "uppercase"] then ["strings"] else []) ++
   (if has ["regex"] then ["regexp"] else []) ++
-  (if has ["url"] then ["net/url"] else []) ++
+  (if W.urlImport ∧ has ["url"] then ["net/url"] else []) ++
   (if has ["ipv4", "ipv6"] then ["net"] else []) ++
   (if has ["refine", "check"] then ["github.com/kaptinlin/gozod/core"] else [])
+
+
+/-! ### the analyzer: keys of a field declaration with several names, files outside the default build -/
+
+/-- `parseStructFields` / `extractJSONName` for one field declaration `n₁, n₂, … T` without a json tag: the key written for
+    each name. The analyzer of round 4 falls back to `field.Names[0]` for every name; with `multiName` to the name itself. -/
+def fieldKeys (multiName : Bool) (names : List Str) : List Str :=
+  if multiName then names else names.map fun _ => names.headD []
+
+/-- where a tagged struct is declared -/
+inductive SrcKind
+  | plain          -- a .go file that is part of every build
+  | testFile       -- a _test.go file
+  | constrained    -- a file with a //go:build line, or a GOOS / GOARCH file-name suffix
+  deriving DecidableEq, Repr
+
+/-- `outputPath` + the template: the generated file is `<snake(struct)>_gen.go` beside the source, it is never a _test file
+    and carries no build constraint — so it is part of every build, and it refers to the struct type: the package still
+    builds only if the struct is part of every build too -/
+def packageStillBuilds : SrcKind → Bool
+  | .plain => true
+  | _ => false
 
 end Gozod.GenEmit
